@@ -477,6 +477,7 @@ func init() {
 		sessionCorrespondence(r, d, seed*31+15, b, p, scriptOpts{maxArr: 8, maxItems: 2, allowStall: true}, 60*time.Millisecond, oracleC15)
 		c15TLS(r, d)
 		c15Client(r)
+		c15ClientTrace(r, d)
 		c15ClientSlowWrite(r)
 		c15Partial(r)
 		c15Idle(r)
